@@ -273,7 +273,14 @@ impl ClientLoop {
             self.decode,
         )?;
 
-        io.write(bytes, self.decode.physical).await?;
+        // a peer that has stopped reading must not hold the request, and with it disable and
+        // shutdown, forever: a write that does not complete within the response timeout
+        // (once the line is free) is a broken connection
+        let limit = io.time_until_tx().saturating_add(request.timeout);
+        match tokio::time::timeout(limit, io.write(bytes, self.decode.physical)).await {
+            Ok(res) => res?,
+            Err(_) => return Err(RequestError::Io(std::io::ErrorKind::TimedOut)),
+        }
 
         let deadline = Instant::now() + request.timeout;
 
